@@ -48,7 +48,10 @@ def run(pid, tier, seed):
     if (pid == "C16") == (e["op"] == "mul"):
       chk.violation({"clause": "raises", "op": e["op"], "w": opclass(e["w"]), "x": opclass(e["x"])}, e)
   for ev, clauses in rejects:
+    part = next((c[5:] for c in clauses if c.startswith("PART_")), None)      # which part of the property fails
     for cl in clauses:
+      if cl.startswith("PART_"):
+        continue
       if cl.startswith("DEV_"):
         if (pid == "C16") == (ev["op"] == "mul"):
           chk.deviation(cl + ":" + ev["op"])
@@ -75,7 +78,10 @@ def run(pid, tier, seed):
                  "integer_widths_differ": ev["a"]["int"] != ev["b"]["int"], "signedness_differs": ev["a"]["sg"] != ev["b"]["sg"]}
       else:
         pm = lambda t: bool(t["po2"]) or t["mode"] in (2, 3)
-        ident = {"clause": cl, "operand_whose_max_is_a_power_of_two": pm(ev["a"]) or pm(ev["b"])}
+        ident = {"clause": cl, "operand_whose_max_is_a_power_of_two": pm(ev["a"]) or pm(ev["b"]),
+                 "po2_plus_binary01": bool(ev["a"]["po2"]) and ev["b"]["mode"] == 4}
+      if part is not None and ev["op"] in ("acc", "add", "merge"):
+        ident["fails"] = part             # "range": an end value does not fit; "step": resolution coarser than an operand
       chk.violation(ident, {"clause": cl, "event": ev})
   for ev in events:
     if (pid == "C16") == (ev["op"] in ("mul", "alias")) and ev["op"] != "alias":
